@@ -23,7 +23,7 @@ for d in "$@"; do
       mkdir -p "$wt/.vfout"
       ( VF_REPO="$wt" VF_OUT="$wt/.vfout" ./check "$c" --tier "$tier" ) > "$wt/.vfout/log.$c.$tier" 2>&1
       rc=$?
-      if [ $rc -eq 1 ]; then verdict="CAUGHT by $c/$tier: $(grep -m1 'key=' "$wt/.vfout/log.$c.$tier" | cut -c1-160)"; break 2; fi
+      if [ $rc -eq 1 ]; then verdict="CAUGHT by $c/$tier: $(grep -m1 '^  key=' "$wt/.vfout/log.$c.$tier" | cut -c1-160)"; break 2; fi
       if [ $rc -ne 0 ]; then verdict="MACHINERY rc=$rc in $c/$tier"; cp "$wt/.vfout/log.$c.$tier" "/tmp/vf_seed_fail_$(basename $d).log"; break 2; fi
       [ "${SEEDED_QUICK_ONLY:-}" = 1 ] && break
     done
